@@ -875,6 +875,7 @@ pub mod glue {
         witness!(target == k && k > 0, "all slabs full: a new slab is appended");
         witness!(target < k && counts[target] == GCAP, "insert fills a slab");
         witness!(target + 1 < k && counts[target] == GCAP && lowest_vacant(&counts, k).is_some(), "next vacancy moves to a later slab");
+        witness!(nk >= k, "end of the insert step reachable");
         std::mem::forget(ctx);
     }
 
@@ -904,6 +905,7 @@ pub mod glue {
             witness!(counts[i] == GCAP - 1 && lowest_vacant(&counts, k) == Some(i) && i + 1 < k, "full slab gets a vacancy before the cached one");
             witness!(counts[i] == 0, "slab becomes empty");
         }
+        witness!(k > 0, "end of the remove step reachable");
         std::mem::forget(ctx);
     }
 
@@ -1083,44 +1085,154 @@ harnesses! {
     fn c01_pool_iii [unwind 4] { pool_shape_inserts(3, false) }
 
     // @verif id=C01,C02 tier=quick timeout=900 mem=12 expect=pass witness=any covers=1
-    // @bounds RawOpaquePool glue (insert_with_unchecked, remove, shrink_to_fit, reserve(n<=6)): ONE operation from an ARBITRARY consistent pool summary with 0 slab(s), per-slab count 0..=3 symbolic; slab operations replaced by their contracts (inductive step)
+    // @bounds RawOpaquePool::insert_with_unchecked: ONE operation from an ARBITRARY consistent pool summary with 0 slab(s), per-slab count 0..=3 symbolic; slab operations replaced by their contracts (inductive step)
     #[cfg_attr(kani, kani::stub(crate::opaque::slab::Slab::new, crate::folo_verif_slab_model::new))]
     #[cfg_attr(kani, kani::stub(crate::opaque::slab::Slab::insert_with_unchecked, crate::folo_verif_slab_model::insert_with_unchecked))]
     #[cfg_attr(kani, kani::stub(crate::opaque::slab::Slab::remove, crate::folo_verif_slab_model::remove))]
     #[cfg_attr(kani, kani::stub(<crate::opaque::slab::Slab as std::ops::Drop>::drop, crate::folo_verif_slab_model::drop))]
     #[cfg_attr(kani, kani::stub(std::vec::Vec::resize, vec_resize_model))]
     #[cfg_attr(kani, kani::stub(std::vec::Vec::reserve, glue::vec_reserve_model))]
-    fn c01_pool_glue_k0 [unwind 9] { glue::step_insert(0); glue::step_remove(0); glue::step_shrink(0); glue::step_reserve(0); }
+    fn c01_pool_glue_insert_k0 [unwind 9] { glue::step_insert(0) }
 
-    // @verif id=C01,C02 tier=quick timeout=900 mem=12 expect=pass witness=any covers=2
-    // @bounds RawOpaquePool glue (insert_with_unchecked, remove, shrink_to_fit, reserve(n<=6)): ONE operation from an ARBITRARY consistent pool summary with 1 slab(s), per-slab count 0..=3 symbolic; slab operations replaced by their contracts (inductive step)
+    // @verif id=C01,C02 tier=quick timeout=900 mem=12 expect=pass witness=any covers=1
+    // @bounds RawOpaquePool::shrink_to_fit: ONE operation from an ARBITRARY consistent pool summary with 0 slab(s), per-slab count 0..=3 symbolic; slab operations replaced by their contracts (inductive step)
     #[cfg_attr(kani, kani::stub(crate::opaque::slab::Slab::new, crate::folo_verif_slab_model::new))]
     #[cfg_attr(kani, kani::stub(crate::opaque::slab::Slab::insert_with_unchecked, crate::folo_verif_slab_model::insert_with_unchecked))]
     #[cfg_attr(kani, kani::stub(crate::opaque::slab::Slab::remove, crate::folo_verif_slab_model::remove))]
     #[cfg_attr(kani, kani::stub(<crate::opaque::slab::Slab as std::ops::Drop>::drop, crate::folo_verif_slab_model::drop))]
     #[cfg_attr(kani, kani::stub(std::vec::Vec::resize, vec_resize_model))]
     #[cfg_attr(kani, kani::stub(std::vec::Vec::reserve, glue::vec_reserve_model))]
-    fn c01_pool_glue_k1 [unwind 9] { glue::step_insert(1); glue::step_remove(1); glue::step_shrink(1); glue::step_reserve(1); }
+    fn c01_pool_glue_shrink_k0 [unwind 9] { glue::step_shrink(0) }
 
-    // @verif id=C01,C02 tier=quick timeout=900 mem=12 expect=pass witness=any covers=2
-    // @bounds RawOpaquePool glue (insert_with_unchecked, remove, shrink_to_fit, reserve(n<=6)): ONE operation from an ARBITRARY consistent pool summary with 2 slab(s), per-slab count 0..=3 symbolic; slab operations replaced by their contracts (inductive step)
+    // @verif id=C01,C02 tier=quick timeout=900 mem=12 expect=pass witness=any covers=1
+    // @bounds RawOpaquePool::reserve(n<=6): ONE operation from an ARBITRARY consistent pool summary with 0 slab(s), per-slab count 0..=3 symbolic; slab operations replaced by their contracts (inductive step)
     #[cfg_attr(kani, kani::stub(crate::opaque::slab::Slab::new, crate::folo_verif_slab_model::new))]
     #[cfg_attr(kani, kani::stub(crate::opaque::slab::Slab::insert_with_unchecked, crate::folo_verif_slab_model::insert_with_unchecked))]
     #[cfg_attr(kani, kani::stub(crate::opaque::slab::Slab::remove, crate::folo_verif_slab_model::remove))]
     #[cfg_attr(kani, kani::stub(<crate::opaque::slab::Slab as std::ops::Drop>::drop, crate::folo_verif_slab_model::drop))]
     #[cfg_attr(kani, kani::stub(std::vec::Vec::resize, vec_resize_model))]
     #[cfg_attr(kani, kani::stub(std::vec::Vec::reserve, glue::vec_reserve_model))]
-    fn c01_pool_glue_k2 [unwind 9] { glue::step_insert(2); glue::step_remove(2); glue::step_shrink(2); glue::step_reserve(2); }
+    fn c01_pool_glue_reserve_k0 [unwind 9] { glue::step_reserve(0) }
 
-    // @verif id=C01,C02 tier=quick timeout=900 mem=12 expect=pass witness=any covers=2
-    // @bounds RawOpaquePool glue (insert_with_unchecked, remove, shrink_to_fit, reserve(n<=6)): ONE operation from an ARBITRARY consistent pool summary with 3 slab(s), per-slab count 0..=3 symbolic; slab operations replaced by their contracts (inductive step)
+    // @verif id=C01,C02 tier=quick timeout=900 mem=12 expect=pass witness=any covers=1
+    // @bounds RawOpaquePool::insert_with_unchecked: ONE operation from an ARBITRARY consistent pool summary with 1 slab(s), per-slab count 0..=3 symbolic; slab operations replaced by their contracts (inductive step)
     #[cfg_attr(kani, kani::stub(crate::opaque::slab::Slab::new, crate::folo_verif_slab_model::new))]
     #[cfg_attr(kani, kani::stub(crate::opaque::slab::Slab::insert_with_unchecked, crate::folo_verif_slab_model::insert_with_unchecked))]
     #[cfg_attr(kani, kani::stub(crate::opaque::slab::Slab::remove, crate::folo_verif_slab_model::remove))]
     #[cfg_attr(kani, kani::stub(<crate::opaque::slab::Slab as std::ops::Drop>::drop, crate::folo_verif_slab_model::drop))]
     #[cfg_attr(kani, kani::stub(std::vec::Vec::resize, vec_resize_model))]
     #[cfg_attr(kani, kani::stub(std::vec::Vec::reserve, glue::vec_reserve_model))]
-    fn c01_pool_glue_k3 [unwind 9] { glue::step_insert(3); glue::step_remove(3); glue::step_shrink(3); glue::step_reserve(3); }
+    fn c01_pool_glue_insert_k1 [unwind 9] { glue::step_insert(1) }
+
+    // @verif id=C01,C02 tier=quick timeout=900 mem=12 expect=pass witness=any covers=1
+    // @bounds RawOpaquePool::remove(solver-chosen slab and slot): ONE operation from an ARBITRARY consistent pool summary with 1 slab(s), per-slab count 0..=3 symbolic; slab operations replaced by their contracts (inductive step)
+    #[cfg_attr(kani, kani::stub(crate::opaque::slab::Slab::new, crate::folo_verif_slab_model::new))]
+    #[cfg_attr(kani, kani::stub(crate::opaque::slab::Slab::insert_with_unchecked, crate::folo_verif_slab_model::insert_with_unchecked))]
+    #[cfg_attr(kani, kani::stub(crate::opaque::slab::Slab::remove, crate::folo_verif_slab_model::remove))]
+    #[cfg_attr(kani, kani::stub(<crate::opaque::slab::Slab as std::ops::Drop>::drop, crate::folo_verif_slab_model::drop))]
+    #[cfg_attr(kani, kani::stub(std::vec::Vec::resize, vec_resize_model))]
+    #[cfg_attr(kani, kani::stub(std::vec::Vec::reserve, glue::vec_reserve_model))]
+    fn c01_pool_glue_remove_k1 [unwind 9] { glue::step_remove(1) }
+
+    // @verif id=C01,C02 tier=quick timeout=900 mem=12 expect=pass witness=any covers=1
+    // @bounds RawOpaquePool::shrink_to_fit: ONE operation from an ARBITRARY consistent pool summary with 1 slab(s), per-slab count 0..=3 symbolic; slab operations replaced by their contracts (inductive step)
+    #[cfg_attr(kani, kani::stub(crate::opaque::slab::Slab::new, crate::folo_verif_slab_model::new))]
+    #[cfg_attr(kani, kani::stub(crate::opaque::slab::Slab::insert_with_unchecked, crate::folo_verif_slab_model::insert_with_unchecked))]
+    #[cfg_attr(kani, kani::stub(crate::opaque::slab::Slab::remove, crate::folo_verif_slab_model::remove))]
+    #[cfg_attr(kani, kani::stub(<crate::opaque::slab::Slab as std::ops::Drop>::drop, crate::folo_verif_slab_model::drop))]
+    #[cfg_attr(kani, kani::stub(std::vec::Vec::resize, vec_resize_model))]
+    #[cfg_attr(kani, kani::stub(std::vec::Vec::reserve, glue::vec_reserve_model))]
+    fn c01_pool_glue_shrink_k1 [unwind 9] { glue::step_shrink(1) }
+
+    // @verif id=C01,C02 tier=quick timeout=900 mem=12 expect=pass witness=any covers=1
+    // @bounds RawOpaquePool::reserve(n<=6): ONE operation from an ARBITRARY consistent pool summary with 1 slab(s), per-slab count 0..=3 symbolic; slab operations replaced by their contracts (inductive step)
+    #[cfg_attr(kani, kani::stub(crate::opaque::slab::Slab::new, crate::folo_verif_slab_model::new))]
+    #[cfg_attr(kani, kani::stub(crate::opaque::slab::Slab::insert_with_unchecked, crate::folo_verif_slab_model::insert_with_unchecked))]
+    #[cfg_attr(kani, kani::stub(crate::opaque::slab::Slab::remove, crate::folo_verif_slab_model::remove))]
+    #[cfg_attr(kani, kani::stub(<crate::opaque::slab::Slab as std::ops::Drop>::drop, crate::folo_verif_slab_model::drop))]
+    #[cfg_attr(kani, kani::stub(std::vec::Vec::resize, vec_resize_model))]
+    #[cfg_attr(kani, kani::stub(std::vec::Vec::reserve, glue::vec_reserve_model))]
+    fn c01_pool_glue_reserve_k1 [unwind 9] { glue::step_reserve(1) }
+
+    // @verif id=C01,C02 tier=quick timeout=900 mem=12 expect=pass witness=any covers=1
+    // @bounds RawOpaquePool::insert_with_unchecked: ONE operation from an ARBITRARY consistent pool summary with 2 slab(s), per-slab count 0..=3 symbolic; slab operations replaced by their contracts (inductive step)
+    #[cfg_attr(kani, kani::stub(crate::opaque::slab::Slab::new, crate::folo_verif_slab_model::new))]
+    #[cfg_attr(kani, kani::stub(crate::opaque::slab::Slab::insert_with_unchecked, crate::folo_verif_slab_model::insert_with_unchecked))]
+    #[cfg_attr(kani, kani::stub(crate::opaque::slab::Slab::remove, crate::folo_verif_slab_model::remove))]
+    #[cfg_attr(kani, kani::stub(<crate::opaque::slab::Slab as std::ops::Drop>::drop, crate::folo_verif_slab_model::drop))]
+    #[cfg_attr(kani, kani::stub(std::vec::Vec::resize, vec_resize_model))]
+    #[cfg_attr(kani, kani::stub(std::vec::Vec::reserve, glue::vec_reserve_model))]
+    fn c01_pool_glue_insert_k2 [unwind 9] { glue::step_insert(2) }
+
+    // @verif id=C01,C02 tier=quick timeout=900 mem=12 expect=pass witness=any covers=1
+    // @bounds RawOpaquePool::remove(solver-chosen slab and slot): ONE operation from an ARBITRARY consistent pool summary with 2 slab(s), per-slab count 0..=3 symbolic; slab operations replaced by their contracts (inductive step)
+    #[cfg_attr(kani, kani::stub(crate::opaque::slab::Slab::new, crate::folo_verif_slab_model::new))]
+    #[cfg_attr(kani, kani::stub(crate::opaque::slab::Slab::insert_with_unchecked, crate::folo_verif_slab_model::insert_with_unchecked))]
+    #[cfg_attr(kani, kani::stub(crate::opaque::slab::Slab::remove, crate::folo_verif_slab_model::remove))]
+    #[cfg_attr(kani, kani::stub(<crate::opaque::slab::Slab as std::ops::Drop>::drop, crate::folo_verif_slab_model::drop))]
+    #[cfg_attr(kani, kani::stub(std::vec::Vec::resize, vec_resize_model))]
+    #[cfg_attr(kani, kani::stub(std::vec::Vec::reserve, glue::vec_reserve_model))]
+    fn c01_pool_glue_remove_k2 [unwind 9] { glue::step_remove(2) }
+
+    // @verif id=C01,C02 tier=quick timeout=900 mem=12 expect=pass witness=any covers=1
+    // @bounds RawOpaquePool::shrink_to_fit: ONE operation from an ARBITRARY consistent pool summary with 2 slab(s), per-slab count 0..=3 symbolic; slab operations replaced by their contracts (inductive step)
+    #[cfg_attr(kani, kani::stub(crate::opaque::slab::Slab::new, crate::folo_verif_slab_model::new))]
+    #[cfg_attr(kani, kani::stub(crate::opaque::slab::Slab::insert_with_unchecked, crate::folo_verif_slab_model::insert_with_unchecked))]
+    #[cfg_attr(kani, kani::stub(crate::opaque::slab::Slab::remove, crate::folo_verif_slab_model::remove))]
+    #[cfg_attr(kani, kani::stub(<crate::opaque::slab::Slab as std::ops::Drop>::drop, crate::folo_verif_slab_model::drop))]
+    #[cfg_attr(kani, kani::stub(std::vec::Vec::resize, vec_resize_model))]
+    #[cfg_attr(kani, kani::stub(std::vec::Vec::reserve, glue::vec_reserve_model))]
+    fn c01_pool_glue_shrink_k2 [unwind 9] { glue::step_shrink(2) }
+
+    // @verif id=C01,C02 tier=quick timeout=900 mem=12 expect=pass witness=any covers=1
+    // @bounds RawOpaquePool::reserve(n<=6): ONE operation from an ARBITRARY consistent pool summary with 2 slab(s), per-slab count 0..=3 symbolic; slab operations replaced by their contracts (inductive step)
+    #[cfg_attr(kani, kani::stub(crate::opaque::slab::Slab::new, crate::folo_verif_slab_model::new))]
+    #[cfg_attr(kani, kani::stub(crate::opaque::slab::Slab::insert_with_unchecked, crate::folo_verif_slab_model::insert_with_unchecked))]
+    #[cfg_attr(kani, kani::stub(crate::opaque::slab::Slab::remove, crate::folo_verif_slab_model::remove))]
+    #[cfg_attr(kani, kani::stub(<crate::opaque::slab::Slab as std::ops::Drop>::drop, crate::folo_verif_slab_model::drop))]
+    #[cfg_attr(kani, kani::stub(std::vec::Vec::resize, vec_resize_model))]
+    #[cfg_attr(kani, kani::stub(std::vec::Vec::reserve, glue::vec_reserve_model))]
+    fn c01_pool_glue_reserve_k2 [unwind 9] { glue::step_reserve(2) }
+
+    // @verif id=C01,C02 tier=quick timeout=900 mem=12 expect=pass witness=any covers=1
+    // @bounds RawOpaquePool::insert_with_unchecked: ONE operation from an ARBITRARY consistent pool summary with 3 slab(s), per-slab count 0..=3 symbolic; slab operations replaced by their contracts (inductive step)
+    #[cfg_attr(kani, kani::stub(crate::opaque::slab::Slab::new, crate::folo_verif_slab_model::new))]
+    #[cfg_attr(kani, kani::stub(crate::opaque::slab::Slab::insert_with_unchecked, crate::folo_verif_slab_model::insert_with_unchecked))]
+    #[cfg_attr(kani, kani::stub(crate::opaque::slab::Slab::remove, crate::folo_verif_slab_model::remove))]
+    #[cfg_attr(kani, kani::stub(<crate::opaque::slab::Slab as std::ops::Drop>::drop, crate::folo_verif_slab_model::drop))]
+    #[cfg_attr(kani, kani::stub(std::vec::Vec::resize, vec_resize_model))]
+    #[cfg_attr(kani, kani::stub(std::vec::Vec::reserve, glue::vec_reserve_model))]
+    fn c01_pool_glue_insert_k3 [unwind 9] { glue::step_insert(3) }
+
+    // @verif id=C01,C02 tier=quick timeout=900 mem=12 expect=pass witness=any covers=1
+    // @bounds RawOpaquePool::remove(solver-chosen slab and slot): ONE operation from an ARBITRARY consistent pool summary with 3 slab(s), per-slab count 0..=3 symbolic; slab operations replaced by their contracts (inductive step)
+    #[cfg_attr(kani, kani::stub(crate::opaque::slab::Slab::new, crate::folo_verif_slab_model::new))]
+    #[cfg_attr(kani, kani::stub(crate::opaque::slab::Slab::insert_with_unchecked, crate::folo_verif_slab_model::insert_with_unchecked))]
+    #[cfg_attr(kani, kani::stub(crate::opaque::slab::Slab::remove, crate::folo_verif_slab_model::remove))]
+    #[cfg_attr(kani, kani::stub(<crate::opaque::slab::Slab as std::ops::Drop>::drop, crate::folo_verif_slab_model::drop))]
+    #[cfg_attr(kani, kani::stub(std::vec::Vec::resize, vec_resize_model))]
+    #[cfg_attr(kani, kani::stub(std::vec::Vec::reserve, glue::vec_reserve_model))]
+    fn c01_pool_glue_remove_k3 [unwind 9] { glue::step_remove(3) }
+
+    // @verif id=C01,C02 tier=quick timeout=900 mem=12 expect=pass witness=any covers=1
+    // @bounds RawOpaquePool::shrink_to_fit: ONE operation from an ARBITRARY consistent pool summary with 3 slab(s), per-slab count 0..=3 symbolic; slab operations replaced by their contracts (inductive step)
+    #[cfg_attr(kani, kani::stub(crate::opaque::slab::Slab::new, crate::folo_verif_slab_model::new))]
+    #[cfg_attr(kani, kani::stub(crate::opaque::slab::Slab::insert_with_unchecked, crate::folo_verif_slab_model::insert_with_unchecked))]
+    #[cfg_attr(kani, kani::stub(crate::opaque::slab::Slab::remove, crate::folo_verif_slab_model::remove))]
+    #[cfg_attr(kani, kani::stub(<crate::opaque::slab::Slab as std::ops::Drop>::drop, crate::folo_verif_slab_model::drop))]
+    #[cfg_attr(kani, kani::stub(std::vec::Vec::resize, vec_resize_model))]
+    #[cfg_attr(kani, kani::stub(std::vec::Vec::reserve, glue::vec_reserve_model))]
+    fn c01_pool_glue_shrink_k3 [unwind 9] { glue::step_shrink(3) }
+
+    // @verif id=C01,C02 tier=quick timeout=900 mem=12 expect=pass witness=any covers=1
+    // @bounds RawOpaquePool::reserve(n<=6): ONE operation from an ARBITRARY consistent pool summary with 3 slab(s), per-slab count 0..=3 symbolic; slab operations replaced by their contracts (inductive step)
+    #[cfg_attr(kani, kani::stub(crate::opaque::slab::Slab::new, crate::folo_verif_slab_model::new))]
+    #[cfg_attr(kani, kani::stub(crate::opaque::slab::Slab::insert_with_unchecked, crate::folo_verif_slab_model::insert_with_unchecked))]
+    #[cfg_attr(kani, kani::stub(crate::opaque::slab::Slab::remove, crate::folo_verif_slab_model::remove))]
+    #[cfg_attr(kani, kani::stub(<crate::opaque::slab::Slab as std::ops::Drop>::drop, crate::folo_verif_slab_model::drop))]
+    #[cfg_attr(kani, kani::stub(std::vec::Vec::resize, vec_resize_model))]
+    #[cfg_attr(kani, kani::stub(std::vec::Vec::reserve, glue::vec_reserve_model))]
+    fn c01_pool_glue_reserve_k3 [unwind 9] { glue::step_reserve(3) }
 
     // @verif id=C01 tier=quick timeout=300 mem=8 expect=pass covers=1
     // @bounds LayoutKey::new for every pair of layouts with size < 2^32 and alignment 2^0..2^31
